@@ -264,6 +264,7 @@ theorem segMatch_false (negate : Bool) (vs : List J)
     | num q => simp only [Spec.segMatchValues, ih']
     | arr xs => simp only [Spec.segMatchValues, ih']
     | obj kvs => simp only [Spec.segMatchValues, ih']
+    | raw w => simp only [Spec.segMatchValues, ih']
 
 theorem segMatch_true (negate : Bool) (pre post : List J) (k : String) (seg : Segment)
     (hpre : ∀ k', J.str k' ∈ pre → NoMatch rec env chain k')
@@ -283,6 +284,7 @@ theorem segMatch_true (negate : Bool) (pre post : List J) (k : String) (seg : Se
     | num q => simp only [List.cons_append, Spec.segMatchValues, ih']
     | arr xs => simp only [List.cons_append, Spec.segMatchValues, ih']
     | obj kvs => simp only [List.cons_append, Spec.segMatchValues, ih']
+    | raw w => simp only [List.cons_append, Spec.segMatchValues, ih']
 
 theorem first_member (vs : List J)
     (hok : ∀ k seg, J.str k ∈ vs → env.store.findSegment k = some seg → ∃ b, rec seg chain = .ok b)
@@ -446,6 +448,17 @@ example (negate : Bool) :
   simp only [List.mem_cons, reduceCtorEq, J.str.injEq, List.not_mem_nil, or_false] at hk
   subst hk
   exact .inl (by simp [exEnv, Store.findSegment, Store.ofLists])
+
+/-- An unparsed string (`ldvalue.Raw`, whose `Type()` is `RawType`, not `StringType`) is skipped as
+a segment key, although segment `s1` exists and would contain the context; the plain string is not. -/
+example (negate : Bool) :
+    Spec.segMatchValues (fun _ _ => .ok true) exEnv negate [] [.raw (.str "s1")] = .ok negate := rfl
+example (negate : Bool) (st : St) :
+    (segMatchValues (fun _ _ st => (.ok true, st)) exEnv negate [] [.raw (.str "s1")] st) =
+      (.ok negate, st) := rfl
+example (negate : Bool) :
+    Spec.segMatchValues (fun _ _ => .ok true) exEnv negate [] [.str "s1"] = .ok (!negate) := by
+  simp [Spec.segMatchValues, exEnv, Store.findSegment, Store.ofLists]
 
 #print axioms lists_spec
 #print axioms regular_iff
